@@ -126,7 +126,7 @@ class Fn:
                     l = n["e"]
                     if l.get("k") == "ref":
                         defs.setdefault(l["id"], []).append(None)
-                elif k == "un" and n["op"] == "&" and id(n) not in readonly_addr:
+                elif k == "un" and n["op"] == "&" and id(n) not in readonly_addr and n.get("mut", True):
                     t = n["e"]
                     while t.get("k") in ("mem", "idx") and not (t.get("k") == "mem" and t.get("arrow")):
                         t = t["b"]
